@@ -224,7 +224,7 @@ type RaceSummary struct {
 	Goroutines int            `json:"goroutines"`
 	Rounds     int            `json:"rounds"`
 	Iterations int            `json:"iterations"`  // per goroutine and round
-	Calls      int64          `json:"calls"`       // observer calls of the warm rounds
+	Calls      int64          `json:"calls"`       // observer calls of the rounds
 	ColdShapes int            `json:"cold_shapes"` // shapes of the cold phase
 	ColdCalls  int64          `json:"cold_calls"`  // observer calls of the cold phase
 	Shapes     int            `json:"shapes"`
@@ -348,6 +348,7 @@ func (run *raceRun) collect(r *core.Result) {
 	r.Count("race_cold_observer_calls", total.ColdCalls)
 	r.Count("race_pass_goroutines", int64(total.Goroutines))
 	r.Count("race_pass_iterations", int64(total.Rounds*total.Iterations))
+	r.Count("race_fresh_object_rounds", int64(total.Rounds))
 	r.Count("race_pass_observer_calls", total.Calls)
 	r.Count("race_reports", nrep)
 	r.Count("race_runtime_fatal_errors", nfatal)
@@ -355,7 +356,7 @@ func (run *raceRun) collect(r *core.Result) {
 		"data races: auxiliary dynamic analysis, NOT an enumeration — the C18 driver bodies run free under the Go race detector in %d fresh processes. "+
 			"Each process starts with a COLD phase (before any solo baseline or other library use: %d goroutines released together, every observer on each of %d shapes, "+
 			"most of them over generic user types never looked at before, each goroutine in its own rotation), so that lazily-filled package-level state is first touched concurrently; "+
-			"then warm rounds (%d rounds × %d iterations × %d observers on each of %d shared shapes in total). The detector is happens-before based: it does not need the racy "+
+			"then rounds, each on brand-new shared objects of every shape, all goroutines released at once, reference results from twin objects (%d rounds × %d iterations × %d observers on each of %d shapes in total): state lazily initialised per error VALUE is cold in every round. The detector is happens-before based: it does not need the racy "+
 			"interleaving to occur, but it only sees code paths that execute — first-use paths are seen once per type and process, which is why types and processes are multiplied",
 		len(run.procs), total.Goroutines, total.ColdShapes, total.Rounds, total.Iterations, total.Observers, total.Shapes))
 }
